@@ -427,6 +427,29 @@ def wire_harness(prop, tier, seed, cov, log):
 
 # ------------------------------------------------------------------ C09: real threads under the race detector
 
+def id_stress(prop, tier, seed, cov, log):
+    """C10 / C05: the id sources of the real code (SequentialIDGenerator with releases, the session's participant and
+    entity ids, odal's asset ids, concurrent registration of the same type names) drawn from by 16 goroutines at once:
+    no id in two hands.  Real threads; what the controlled scheduler cannot show (races inside one critical section)."""
+    dur = '1500ms' if tier == 'quick' else '20s'
+    r = subprocess.run([f'{L.BIN}/idstress', '-for', dur], capture_output=True, text=True, env=L.GOENV, timeout=600)
+    line = next((l for l in r.stdout.split('\n') if l.startswith('IDS ')), '')
+    cov['id_stress'] = line[:200] or f'exit {r.returncode}'
+    if line.startswith('IDS ok'):
+        return []
+    known = L.load_known(prop)
+    if not line:
+        path = L.write_replay(prop, 'id-stress-harness', {'property': prop, 'broken': 'idstress did not finish'}, [(r.stdout + r.stderr)[-3000:]])
+        return [(path, ' no-failing-input-found')]
+    cause = line.split()[1]
+    k = [e for e in known if e['cause'] == cause]
+    if k:
+        print(f'KNOWN-FINDING: property={prop} {k[0]["what"]} [{cause}]'); return []
+    path = L.write_replay(prop, cause, {'property': prop, 'cause': cause, 'seed': seed, 'tier': tier,
+                          'replay': f'.cache/bin/idstress -for {dur}   (16 goroutines; the failing schedule is the one the run hit)'}, [line])
+    return [(path, '')]
+
+
 RACE_SCOPE = {
     'C02': r'models\.\(\*Session\)\.(Broadcast|BroadcastTo|AddParticipant|RemoveParticipant|GetParticipants)',
     'C03': r'models\.\(\*SessionStore\)',
